@@ -386,6 +386,11 @@ pub fn knobs(profile: &str) -> Knobs {
             callers: (1, 2), ops: (30, 60), keys: (1, 2), max_weights: vec![40, 200], mixw: [30, 50, 2, 12, 2, 4, 0],
             ttl_pct: 100, weight_pct: 100, pou_ttl_pct: 0, await_pcts: vec![0, 30, 70], advance_pcts: vec![15, 25, 35], max_advances: vec![1, 1, 2],
             sweeper_pcts: vec![100], stall_sweeper_pct: 0, ttls: vec![1, 1, 2, 3], heavy_pct: 0, shards: vec![2, 2, 4], sticky: vec![0, 0, 50], ..d },
+        // deletes racing puts of the same one or two keys from several callers, nothing awaited (C04, C07, C11)
+        "delrace" => Knobs {
+            callers: (2, 3), ops: (25, 50), keys: (1, 2), max_weights: vec![40, 200], mixw: [45, 4, 35, 12, 2, 1, 1],
+            ttl_pct: 10, weight_pct: 50, await_pcts: vec![0, 0, 30], advance_pcts: vec![0, 3], sticky: vec![0, 0, 50],
+            stall_sweeper_pct: 50, heavy_pct: 0, observe_pct: 10, ..d },
         // memory pressure: small caches, many puts, frequency profiles
         "pressure" => Knobs {
             callers: (1, 3), ops: (20, 50), keys: (5, 12), max_weights: vec![4, 6, 9, 10, 15], mixw: [50, 12, 6, 26, 3, 3, 0],
